@@ -43,6 +43,10 @@ def run_config(cfg):
     rng = np.random.default_rng(seed + 17)
     nS = 10
     Xt = rng.uniform(0.1, 0.9, (n_layers, m)) * (np.array(mask) if mask is not None else 1.0) * u
+    if extra.get("perlayer"):
+        # opacity bounds given per layer (array-valued, documented through broadcasting): layers are NOT exchangeable
+        ubp = np.array([0.3, 1.0, 0.6][:n_layers])
+        lbp = np.zeros(n_layers)
     Pt = rng.uniform(lbp, ubp, (nS, n_layers))
     Kv = None if K is None else np.array(K)
     blv = None if bl is None else np.array(bl)
@@ -50,7 +54,7 @@ def run_config(cfg):
     bleff = 0 if blv is None else (blv if Kv is None else Kv * blv)
     # light-induced targets stay non-negative (the NMF initialisation requires it)
     B = np.maximum(Pt @ Xt @ Aeff.T + rng.normal(0, 0.02, (nS, d)), 0.0) + bleff
-    where0 = dict(sys=name, n_layers=n_layers, masked=mask is not None, equal_l1=eq, subsample=bool(subsample), lbp=lbp, ubp=ubp,
+    where0 = dict(sys=name, n_layers=n_layers, masked=mask is not None, equal_l1=eq, subsample=bool(subsample), lbp=np.asarray(lbp).tolist(), ubp=np.asarray(ubp).tolist(),
                   K=K is not None, baseline=bl is not None, unit=("1" if u == 1 else "2^-10"), weighted=bool(extra.get("weighted")))
     bad, events = [], []
     kw = dict(n_layers=n_layers, mask=(None if mask is None else np.array(mask, float)), lb=lb, ub=ub, lbp=lbp, ubp=ubp,
@@ -95,7 +99,7 @@ def run_config(cfg):
     if eq and n_layers > 1 and np.ptp(X.sum(1)) > 2 * tol * m * u:
         bad.append(("C11.equal-l1", where0, 0.0, float(np.ptp(X.sum(1)))))
     if np.any(P < lbp - tol) or np.any(P > ubp + tol):
-        bad.append(("C11.opacity-bounds", where0, [lbp, ubp], [float(P.min()), float(P.max())]))
+        bad.append(("C11.opacity-bounds", where0, [np.asarray(lbp).tolist(), np.asarray(ubp).tolist()], [P.min(0).tolist(), P.max(0).tolist()]))
     want = P @ X @ Aeff.T + bleff
     if np.max(np.abs(Bp - want)) > 1e-9 * (1 + np.max(np.abs(want))):
         bad.append(("C11.pred-identity", where0, None, float(np.max(np.abs(Bp - want)))))
@@ -114,7 +118,7 @@ def run_config(cfg):
         worst = 0.0
         for srow in range(P.shape[0]):
             Vw, tw = V * Wm[srow][:, None], T[srow] * Wm[srow]
-            ropt = _bvls(Vw, tw, bounds=(np.full(P.shape[1], lbp, float), np.full(P.shape[1], ubp, float) + (1e-12 if lbp == ubp else 0)), method="bvls")
+            ropt = _bvls(Vw, tw, bounds=(np.full(P.shape[1], lbp, float), np.full(P.shape[1], ubp, float) + (1e-12 if np.all(np.asarray(lbp) == np.asarray(ubp)) else 0)), method="bvls")
             mine = np.linalg.norm(Vw @ P[srow] - tw)
             worst = max(worst, mine - np.sqrt(2 * ropt.cost))
         if worst > 2e-3 * (1 + base):
@@ -233,7 +237,8 @@ def run(ctx):
     rng.shuffle(base)
     small = [c + (dict(unit=2.0 ** -10),) for c in base[: (24 if thorough else 8)]]
     wsub = [c[:4] + (0.6,) + c[5:] + (dict(weighted=True),) for c in base[-(40 if thorough else 12):]]
-    cfgs = [c + ({},) for c in cfgs] + small + wsub
+    perl = [c[:2] + (None,) + c[3:] + (dict(perlayer=True),) for c in base if c[1] >= 2][: (24 if thorough else 8)]
+    cfgs = [c + ({},) for c in cfgs] + small + wsub + perl
     parts = pmap(run_config, cfgs, chunksize=1)
     events = []
     for cfg, (bad, ev, niter) in zip(cfgs, parts):
